@@ -44,10 +44,19 @@ fn templates() -> Vec<Tmpl> {
 }
 
 fn ident(s: usize, kind: Option<usize>, visible: bool) -> Value {
+    ident_masked(s, kind, visible, 0x3f)
+}
+
+/// `others`: bit k set = the record carries identifier kind k (applies to the kinds that are NOT queried; which of those a record
+/// carries must not matter: the specification looks records up by the queried kind only)
+fn ident_masked(s: usize, kind: Option<usize>, visible: bool, others: u8) -> Value {
     let mut m = serde_json::Map::new();
     for (k, (field, _, pre)) in KINDS.iter().enumerate() {
         if Some(k) == kind && !visible {
             continue; // this record does not carry the queried kind of identifier
+        }
+        if Some(k) != kind && others & (1 << k) == 0 {
+            continue;
         }
         m.insert(field.to_string(), json!(format!("{}{}", pre, s)));
     }
@@ -75,11 +84,15 @@ impl Scratch {
 }
 
 fn pure_file(sc: &mut Scratch, t: &Tmpl, file: &[usize], vis: &[usize], kind: usize) -> String {
-    let key = format!("P/{}/{:?}/{:?}/{}", t.name, file, vis, kind);
+    pure_file_masked(sc, t, file, vis, kind, 0x3f)
+}
+
+fn pure_file_masked(sc: &mut Scratch, t: &Tmpl, file: &[usize], vis: &[usize], kind: usize, others: u8) -> String {
+    let key = format!("P/{}/{:?}/{:?}/{}/{}", t.name, file, vis, kind, others);
     sc.file(key, || {
         let recs: Vec<Value> = file
             .iter()
-            .map(|&s| json!({"identifier": ident(s, Some(kind), vis.contains(&s)), "molarweight": 10.0 + s as f64, "model_record": (t.pure)(s)}))
+            .map(|&s| json!({"identifier": ident_masked(s, Some(kind), vis.contains(&s), others), "molarweight": 10.0 + s as f64, "model_record": (t.pure)(s)}))
             .collect();
         serde_json::to_string(&recs).unwrap()
     })
@@ -170,16 +183,18 @@ where
             let kind = (pi + t.name.len()) % 6;
             let mut all = vec![1usize, 2, 3, 4];
             rng.shuffle(&mut all);
-            let path = pure_file(sc, t, &all, &[1, 2, 3, 4], kind);
+            // which of the NON-queried identifier kinds the pure and the binary records carry: all, none, or a random subset
+            let masks: (u8, u8) = match pi % 3 { 0 => (0x3f, 0x3f), 1 => (0, 0), _ => (rng.below(64) as u8, rng.below(64) as u8) };
+            let path = pure_file_masked(sc, t, &all, &[1, 2, 3, 4], kind, masks.0);
             let mut order: Vec<usize> = (0..bfile.len()).collect();
             rng.shuffle(&mut order);
-            let key = format!("B/{}/{:?}/{:?}/{}", t.name, bfile, order, kind);
+            let key = format!("B/{}/{:?}/{:?}/{}/{}", t.name, bfile, order, kind, masks.1);
             let bpath = sc.file(key, || {
                 let recs: Vec<Value> = order
                     .iter()
                     .map(|&k| {
                         let (a, b) = (bfile[k][0], bfile[k][1]);
-                        json!({"id1": ident(a, None, true), "id2": ident(b, None, true), "model_record": bt(tag(a, b))})
+                        json!({"id1": ident_masked(a, Some(kind), true, masks.1), "id2": ident_masked(b, Some(kind), true, masks.1), "model_record": bt(tag(a, b))})
                     })
                     .collect();
                 serde_json::to_string(&recs).unwrap()
